@@ -5,6 +5,12 @@ HERE = os.path.dirname(os.path.abspath(__file__))
 ALL = ["C%02d" % i for i in range(1, 19)]
 
 CHECKS = {
+ "C04": dict(
+   technique="TLC-enumerated token sequences (XtTokens) plus adversarial and mutated inputs executed in crash-isolated workers and through both binaries; every recorded call validated by TLC against the totality contract XtTotal",
+   category="model_checking",
+   text="TLC enumerates every sequence of up to 3 (thorough: 4) tokens over a 24-token alphabet per format; together with adversarial shapes (huge length prefixes, alias bombs, deep nesting, boundary-size maps) and structure-aware mutations they are translated under every source selection, all targets, slice and reader in an isolated worker with a deadline, and a sample through the debug and release binaries; TLC accepts the record stream only if every call ends in success or an error value (no panic, signal or timeout). The cross-module preconditions of the unwrap/expect/index sites are invariants of XtTranscode, XtInput, XtMsgpack and XtChunker (C11, C09, C18, C17).",
+   note="Exhaustive only for the token sequences up to the bound; everything else is generated. Deep nesting is covered by C18's runs.",
+   design_ref="DESIGN.md 6 (C04)"),
  "C18": dict(
    technique="TLA+ model XtMsgpack (size calculator vs decoder depth budget) model-checked with TLC and replayed on the real calculator; runs at the real limits (library worker, debug and release binaries) validated by TLC against XtLimits",
    text="TLC checks on every nesting shape to depth L+2 that the size calculator returns the true size, never sizes ill-formed input, covers everything the decoder accepts and that both accept L-1 and reject L collections; each shape is replayed on the real next_value_size. Documents of all four formats nested around each limit and far beyond (arrays, maps, alternating, key position) are translated in-process and by the debug and release binaries from a file and from stdin; TLC requires clean exits, one verdict across modes and runners, a single threshold and MessagePack 1023/1024.",
